@@ -20,8 +20,42 @@ from .. import env, tlc, absstate, kernels, outputs
 from ..evidence import Check
 
 
+def tla_state(key):
+    f, o = key
+    return "[f |-> {%s}, o |-> {%s}]" % (", ".join("{%s}" % ", ".join(str(d) for d in sorted(c)) for c in sorted(f, key=sorted)), ", ".join(str(d) for d in sorted(o)))
+
+
+def tla_trace(chains):
+    """chains: list of (num, [(key, mult)...]) -> TLA+ literal of a trace."""
+    return "<<" + ", ".join("[num |-> %d, entries |-> <<%s>>]" % (num, ", ".join("[t |-> %s, m |-> %d]" % (tla_state(k), m) for k, m in ents)) for num, ents in chains) + ">>"
+
+
+def long_traces(ck, seed):
+    """A few long traces over the forests on 3 points (>= 11 distinct trees, ties, two chains finishing out of order),
+    given to SummariesMap as FixedTraces so that TLC scans them and prints their admissible outputs."""
+    rs = random.Random(seed + 77)
+    r0 = tlc.run_tlc("c11_universe", "Density", tlc.cfg_text(constants={"N": 3, "OutliersOn": "TRUE", "Dump": "TRUE"}, invariants=["FeatConsistent", "Emit"]), timeout=600)
+    tlc.require_ok(r0, "forest universe")
+    forests = [absstate.canon(x["st"]) for x in r0.json_prints if absstate.data_ids(absstate.canon(x["st"])) == {0, 1, 2}]
+    forests.sort(key=absstate.key_str)
+    traces = []
+    pick = rs.sample(forests, 14)
+    traces.append([(0, [(k, rs.randint(1, 40)) for k in pick])])
+    pick = rs.sample(forests, 12)
+    traces.append([(1, [(k, rs.randint(1, 6)) for k in pick[:7]] + [(pick[0], 9)]), (0, [(k, rs.randint(1, 6)) for k in pick[5:]] + [(pick[1], 3), (pick[1], 9)])])
+    pick = rs.sample(forests, 11)
+    traces.append([(0, [(k, 5) for k in pick] + [(pick[3], 5), (pick[3], 5)])])
+    mc = "---- MODULE MC_SumMap ----\nEXTENDS SummariesMap\nFixedDef == {%s}\n====\n" % ", ".join(tla_trace(t) for t in traces)
+    cfg = tlc.cfg_text(constants={"N": 3, "OutliersOn": "TRUE", "MaxChains": 1, "MaxEntries": 1, "MaxMult": 1, "Dump": "TRUE", "FixedTraces": "<- FixedDef"},
+                       invariants=["MapCorrect", "TopoCorrect", "CountsSum", "Emit"])
+    r = tlc.run_tlc("c11_long", "MC_SumMap", cfg, mc_text=mc, timeout=1500)
+    tlc.require_ok(r, "SummariesMap fixed traces")
+    ck.add_tlc("SummariesMap on 3 long traces over the forests on 3 points (>= 11 distinct trees)", r)
+    return r.json_prints
+
+
 def tlc_traces(ck, job, n, outl, chains, entries, mult, timeout=3000):
-    cfg = tlc.cfg_text(constants={"N": n, "OutliersOn": tlc.tla_bool(outl), "MaxChains": chains, "MaxEntries": entries, "MaxMult": mult, "Dump": "TRUE"},
+    cfg = tlc.cfg_text(constants={"N": n, "OutliersOn": tlc.tla_bool(outl), "MaxChains": chains, "MaxEntries": entries, "MaxMult": mult, "Dump": "TRUE", "FixedTraces": "{}"},
                        invariants=["MapCorrect", "TopoCorrect", "CountsSum", "Emit"])
     r = tlc.run_tlc(job, "SummariesMap", cfg, timeout=timeout)
     tlc.require_ok(r, "SummariesMap")
@@ -29,7 +63,7 @@ def tlc_traces(ck, job, n, outl, chains, entries, mult, timeout=3000):
     return r.json_prints
 
 
-def check_trace(orc, idx, n, workdir, corrupt=None):
+def check_trace(orc, idx, n, workdir, corrupt=None, tops=None):
     """Materialise one oracle trace, run the commands, compare. Returns list of (signature, message, replay)."""
     from phyclone.process_trace import write_map_results, write_topology_report
     from .. import gridoracle
@@ -68,7 +102,7 @@ def check_trace(orc, idx, n, workdir, corrupt=None):
                 admissible = set()
             if key not in admissible:
                 probs.append(("C11|map|%s" % mode, "%s MAP returned %s, admissible: %s" % (mode, absstate.key_str(key), [absstate.key_str(k) for k in admissible]), rep))
-        top = (1, 2, float("inf"))[idx % 3]
+        top = (1, 2, float("inf"))[idx % 3] if tops is None else tops[idx % len(tops)]
         rp, ap = os.path.join(d, "report.tsv"), os.path.join(d, "arch.tar.gz")
         with contextlib.redirect_stdout(sink):
             write_topology_report(trace_path, rp, topologies_archive=ap, top_trees=top)
@@ -142,16 +176,21 @@ def run(corrupt=None):
         multi = [o for o in oracles if len(o["trace"]) > 1 and len(o["rows"]) > 1]
         single = [o for o in oracles if len(o["trace"]) == 1]
         oracles = rnd.sample(multi, min(900, len(multi))) + rnd.sample(single, min(100, len(single)))
+    # forests with outliers stored in different orders; long traces
+    outl_oracles = tlc_traces(ck, "c11_outl", 2, True, 1, 3, 1)
+    long_oracles = long_traces(ck, ck.seed)
     workdir = env.scratch("c11_files")
-    tasks = list(enumerate(oracles))
+    tasks = [(i, o, 2, None) for i, o in enumerate(oracles)] + [(i, o, 2, None) for i, o in enumerate(outl_oracles)] + \
+            [(i, o, 3, (3, 11, 3)) for i, o in enumerate(long_oracles)]
+    oracles = [t[1] for t in tasks]
 
     def task(arg):
-        i, o = arg
-        return check_trace(o, i, n, workdir, corrupt)
+        i, o, nn, tops = arg
+        return check_trace(o, i, nn, workdir, corrupt, tops)
 
     task(tasks[0])
     results = kernels.parallel_map(task, tasks, chunksize=8)
-    for (i, o), probs in zip(tasks, results):
+    for (i, o, _nn, _tops), probs in zip(tasks, results):
         ck.evaluations += 3
         ck.traces_validated += 1
         for sig, msg, rep in probs:
